@@ -61,6 +61,8 @@ class ZeroWorld:
             live = [d for d in defs if d[0] in self.body.reachable and not self.body.is_cleanup(d[0])]
             if len(live) > 1 and self.body.local_tys(l) in ("bool", "usize", "u32", "u64", "i32"):
                 self.tracked_locals.add(l)
+        # enum carrier locals (`let failure = loop { .. break Some(e) .. break None };`): the variant last assigned
+        self.variant_locals = {e["subject"][1] for e, defs in bi.variant_phi_switches}
 
     # ------------------------------------------------------------------ evaluation of terms
     def ctor_val(self, t):
@@ -204,6 +206,8 @@ class ZeroWorld:
                             ret = env.get(("r", t[1]), "other")
                     elif lhs["l"] in self.tracked_locals:
                         env[("l", lhs["l"])] = self.val(bi.T.of_rvalue(st["rv"], 0), env)
+                    elif lhs["l"] in self.variant_locals:
+                        env[("v", lhs["l"])] = st["rv"].get("vname") if st["rv"]["k"] == "agg" else None
                     else:
                         # remember the kind of Poll-typed temporaries that are later moved into _0
                         kind = self.classify(bi.T.of_rvalue(st["rv"], 0))[0]
@@ -255,6 +259,10 @@ class ZeroWorld:
                                 succs = [tb]
                         elif s[0] == "agg" and isinstance(s[1], tuple):
                             tb = e["edges"].get(s[1][1])
+                            if tb is not None:
+                                succs = [tb]
+                        elif s[0] == "phi" and s[1] in self.variant_locals and env.get(("v", s[1])) is not None:
+                            tb = e["edges"].get(env[("v", s[1])])
                             if tb is not None:
                                 succs = [tb]
                 if succs is None:
